@@ -263,7 +263,9 @@ def main():
                                    'C12', 'C13', 'C14', 'C15', 'C16', 'C18',
                                    'C19'],
              'kind_free_text': 'real threaded server under a deterministic '
-             'virtual-time scheduler (vf/vsched.py) and real asyncio server '
+             'virtual-time scheduler (vf/vsched.py), with a fake WebSocket '
+             'driver or the real simple_websocket driver over an in-memory '
+             'socket (vf/simw.py), and real asyncio server '
              'behind the real ASGI adapter on a virtual loop (vf/vloop.py, '
              'vf/sima.py) or behind the real aiohttp adapter and web server '
              'over an in-memory transport speaking HTTP/1.1 and RFC 6455 '
